@@ -98,6 +98,8 @@ pub struct StmtPos {
 
 pub struct Rendered {
     pub text: String,
+    /// byte offset at which the code part begins (after the data section)
+    pub code_start: usize,
     /// byte offset of the first token of every flat instruction (macro-made instructions: the use site;
     /// implied ret: the closing brace)
     pub flat_offsets: Vec<usize>,
@@ -212,6 +214,7 @@ pub fn render_program(p: &Program, lay: &Layout) -> Rendered {
             out.push('\n');
         }
     }
+    let code_start = out.len();
     let data_labels: Vec<(String, u16)> = data_label_offsets(&p.data);
     fn items(list: &[Item], out: &mut String, offs: &mut Vec<usize>, lay: &Layout, ch: &mut Choices, dl: &[(String, u16)]) {
         for it in list {
@@ -269,7 +272,7 @@ pub fn render_program(p: &Program, lay: &Layout) -> Rendered {
     } else if !out.ends_with('\n') {
         out.push('\n');
     }
-    Rendered { text: out, flat_offsets }
+    Rendered { text: out, flat_offsets, code_start }
 }
 
 /// offsets of the data labels inside their segments (reference computation)
